@@ -609,6 +609,16 @@ def kernel_extents(chk, repo):
     lsym = X.atom('l', 'pos')
     C4.install_rules(lsym)
 
+    def guarded(label, where, thunk):
+        """a kernel whose loop does not finish within the interpreter's unroll bound on concrete trip counts does not terminate: that is R06.4's violation, not an analysis failure"""
+        try:
+            thunk(); return True
+        except AnalysisError as ex:
+            if 'unroll bound' in str(ex):
+                chk.ob('R06.4', f'{label}: loops terminate (interpreted with concrete trip counts)', False, str(ex), where, key=f'R06.4|kernel|{label}', method='abstract interpretation')
+                return False
+            raise
+
     def report(label, where, key):
         oob = sorted({(name, ext, k, kind_, getattr(node, 'lineno', None)) for name, ext, k, kind_, node in I.OOB_LOG})
         chk.ob('R06.2', f'{label}: every access stays inside buffers of the size its caller provides', not oob,
@@ -670,7 +680,9 @@ def kernel_extents(chk, repo):
             rad = Arr('radius', default=lambda k: X.atom(f'r{k}', 'pos')); rad.extent = nsl
             den = Arr('density', default=lambda k: X.atom(f'rho{k}', 'pos')); den.extent = nsl
             grv = Arr('gravity', default=lambda k: X.atom(f'g{k}', 'pos')); grv.extent = nsl
-            Interp(repo).call(mc, fc, [out, cv, storage, rad, den, grv, X.atom('w', 'pos'), 0, nsl, nsol, MAXY, nys, MAXY * ntyp, ytype, 0 if kind == 'solid' else 1, static, False])
+            if not guarded(f'cf_collapse_layer_solution ({kind}{" static" if static else ""}, type {ytype})', mc.where(fc),
+                           lambda: Interp(repo).call(mc, fc, [out, cv, storage, rad, den, grv, X.atom('w', 'pos'), 0, nsl, nsol, MAXY, nys, MAXY * ntyp, ytype, 0 if kind == 'solid' else 1, static, False])):
+                continue
             report(f'cf_collapse_layer_solution, {kind}{" static" if static else ""} layer, solution type {ytype} of {ntyp} ({nsl} slices)', mc.where(fc), f'R06.2|extent|collapse|{kind}|{static}|{ytype}')
     ml = repo.by_path('TidalPy/RadialSolver/love.pyx'); fl = need_func(ml, 'find_love_cf')
     I.OOB_LOG.clear()
